@@ -190,7 +190,7 @@ def run_driver(cmds):
     """one-shot: send JSON commands, get JSON answers (same order)"""
     if not cmds:
         return []
-    inp = '\n'.join(json.dumps(c, separators=(',', ':')) for c in cmds) + '\n'
+    inp = '\n'.join(c if isinstance(c, str) else json.dumps(c, separators=(',', ':')) for c in cmds) + '\n'
     p = subprocess.run([DRIVER], input=inp, stdout=subprocess.PIPE, stderr=subprocess.PIPE, text=True)
     lines = p.stdout.split('\n')
     if lines and lines[-1] == '':
